@@ -379,99 +379,132 @@ func main() {
 			w.Wait(context.Background())
 			w.Close()
 		}
-		// ---- the real decision
-		ri := syncer.NewRedisInput(config.RedisConfig{Addresses: []string{ln.Addr().String()}, Type: config.RedisTypeStandalone, Otype: config.RedisTypeStandalone})
-		ri.SetChannel(ch)
-		ri.SetOutput(fo)
-		ctx, cancel := context.WithTimeout(context.Background(), 20*time.Second)
-		cli, isFull, rdbSize, locSp, outSp, merr := ri.VerifSyncMeta(ctx)
-		ev := map[string]interface{}{"ev": "Resync", "id": id, "backend": backend, "S": st.S,
-			"src":   map[string]interface{}{"id1": st.id1, "id2": st.id2, "second": st.second, "M": st.M, "bl": st.bl},
-			"out":   map[string]interface{}{"id": fo.id, "off": fo.off},
-			"cache": map[string]interface{}{"label": cs.label, "rdb": cs.rdb, "l": cs.l, "r": cs.r},
-			"err":   merr != nil}
-		fs.mu.Lock()
-		ps := map[string]interface{}{"asked": len(fs.obs) > 0, "id": "none", "off": -1, "reply": "none"}
-		if len(fs.obs) > 0 {
-			ps["id"], ps["off"], ps["reply"] = fs.obs[0].id, fs.obs[0].off, fs.obs[0].reply
-		}
-		fs.mu.Unlock()
-		ev["psync"] = ps
-		deliv := map[string]interface{}{"kind": "error", "snapOff": -1, "snapOk": false, "start": -1, "n": 0, "match": true, "cur": st.id1}
-		if merr == nil {
-			// wire the writers as syncData does
-			src := cli.Client().BufioReader()
-			okWriters := true
-			if isFull {
-				w, err := ch.NewRdbWriter(src, locSp.Offset, rdbSize)
-				if err != nil {
-					okWriters = false
-				} else {
-					w.Start()
-					if err := w.Wait(ctx); err != nil {
+		// ---- the real decision (step 1: the described state; step 2: the next connection of the same process, after
+		// the target has advanced into what the cache now claims to hold under the current id)
+		ctx, cancel := context.WithTimeout(context.Background(), 40*time.Second)
+		var liveW syncer.AofChannelWriter
+		var lastOutSp syncer.StartPoint
+		stepOK := false
+		step := func(evID int, stepNo int, cacheDesc map[string]interface{}) {
+			stepOK = false
+			nObs := 0
+			fs.mu.Lock()
+			nObs = len(fs.obs)
+			fs.mu.Unlock()
+			ri := syncer.NewRedisInput(config.RedisConfig{Addresses: []string{ln.Addr().String()}, Type: config.RedisTypeStandalone, Otype: config.RedisTypeStandalone})
+			ri.SetChannel(ch)
+			ri.SetOutput(fo)
+			cli, isFull, rdbSize, locSp, outSp, merr := ri.VerifSyncMeta(ctx)
+			lastOutSp = outSp
+			ev := map[string]interface{}{"ev": "Resync", "id": evID, "step": stepNo, "backend": backend, "S": st.S,
+				"src":   map[string]interface{}{"id1": st.id1, "id2": st.id2, "second": st.second, "M": st.M, "bl": st.bl},
+				"out":   map[string]interface{}{"id": fo.id, "off": fo.off},
+				"cache": cacheDesc,
+				"err":   merr != nil}
+			fs.mu.Lock()
+			ps := map[string]interface{}{"asked": len(fs.obs) > 0, "id": "none", "off": -1, "reply": "none"}
+			if len(fs.obs) > nObs {
+				ps["id"], ps["off"], ps["reply"] = fs.obs[nObs].id, fs.obs[nObs].off, fs.obs[nObs].reply
+			}
+			ps["asked"] = len(fs.obs) > nObs
+			fs.mu.Unlock()
+			ev["psync"] = ps
+			deliv := map[string]interface{}{"kind": "error", "snapOff": -1, "snapOk": false, "start": -1, "n": 0, "match": true, "cur": st.id1}
+			if merr == nil {
+				// wire the writers as syncData does
+				src := cli.Client().BufioReader()
+				okWriters := true
+				if isFull {
+					w, err := ch.NewRdbWriter(src, locSp.Offset, rdbSize)
+					if err != nil {
 						okWriters = false
-					}
-					w.Close()
-				}
-			}
-			if okWriters {
-				w, err := ch.NewAofWritter(src, locSp.Offset)
-				if err != nil {
-					okWriters = false
-				} else {
-					w.Start()
-					// let the live bytes arrive
-					deadline := time.Now().Add(2 * time.Second)
-					for time.Now().Before(deadline) {
-						if _, rr := ch.GetOffsetRange(ch.RunId()); rr >= st.M+st.extra {
-							break
-						}
-						time.Sleep(300 * time.Microsecond)
-					}
-				}
-			}
-			if okWriters {
-				// the reader the run loop opens for the output
-				rd, err := ch.NewReader(syncer.Offset{RunId: outSp.RunId, Offset: outSp.Offset})
-				if err == nil {
-					if !rd.IsAof() {
-						left, size := rd.Left(), rd.Size()
-						b, _ := readAvail(rd, int(size), 2*time.Second)
-						deliv["kind"], deliv["snapOff"] = "snapshot", left
-						// whose snapshot is it? it must be the current history's snapshot taken at `left`
-						deliv["snapOk"] = int64(len(b)) == size && string(b) == string(snapshot(st.id1, left, int(size)))
-						rd2, err := ch.NewReader(syncer.Offset{RunId: ch.RunId(), Offset: left})
-						if err == nil && rd2.IsAof() {
-							want := st.M + st.extra - left
-							b2, _ := readAvail(rd2, int(want), 2*time.Second)
-							deliv["start"], deliv["n"] = left, len(b2)
-							deliv["match"] = string(b2) == string(stream(st.id1, left+1, left+int64(len(b2)), st.S))
-							deliv["want"] = want
-						} else {
-							if err == nil {
-								rd2.Close()
-							}
-							deliv["start"], deliv["n"], deliv["want"] = left, 0, st.M+st.extra-left
-						}
 					} else {
-						want := st.M + st.extra - outSp.Offset
-						b, _ := readAvail(rd, int(want), 2*time.Second)
-						deliv["kind"], deliv["start"], deliv["n"], deliv["want"] = "continue", outSp.Offset, len(b), want
-						deliv["match"] = string(b) == string(stream(st.id1, outSp.Offset+1, outSp.Offset+int64(len(b)), st.S))
+						w.Start()
+						if err := w.Wait(ctx); err != nil {
+							okWriters = false
+						}
+						w.Close()
 					}
 				}
+				if okWriters {
+					w, err := ch.NewAofWritter(src, locSp.Offset)
+					if err != nil {
+						okWriters = false
+					} else {
+						w.Start()
+						liveW = w
+						// let the live bytes arrive
+						deadline := time.Now().Add(2 * time.Second)
+						for time.Now().Before(deadline) {
+							if _, rr := ch.GetOffsetRange(ch.RunId()); rr >= st.M+st.extra {
+								break
+							}
+							time.Sleep(300 * time.Microsecond)
+						}
+					}
+				}
+				if okWriters {
+					// the reader the run loop opens for the output
+					rd, err := ch.NewReader(syncer.Offset{RunId: outSp.RunId, Offset: outSp.Offset})
+					if err == nil {
+						if !rd.IsAof() {
+							left, size := rd.Left(), rd.Size()
+							b, _ := readAvail(rd, int(size), 2*time.Second)
+							deliv["kind"], deliv["snapOff"] = "snapshot", left
+							// whose snapshot is it? it must be the current history's snapshot taken at `left`
+							deliv["snapOk"] = int64(len(b)) == size && string(b) == string(snapshot(st.id1, left, int(size)))
+							rd2, err := ch.NewReader(syncer.Offset{RunId: ch.RunId(), Offset: left})
+							if err == nil && rd2.IsAof() {
+								want := st.M + st.extra - left
+								b2, _ := readAvail(rd2, int(want), 2*time.Second)
+								deliv["start"], deliv["n"] = left, len(b2)
+								deliv["match"] = string(b2) == string(stream(st.id1, left+1, left+int64(len(b2)), st.S))
+								deliv["want"] = want
+							} else {
+								if err == nil {
+									rd2.Close()
+								}
+								deliv["start"], deliv["n"], deliv["want"] = left, 0, st.M+st.extra-left
+							}
+						} else {
+							want := st.M + st.extra - outSp.Offset
+							b, _ := readAvail(rd, int(want), 2*time.Second)
+							deliv["kind"], deliv["start"], deliv["n"], deliv["want"] = "continue", outSp.Offset, len(b), want
+							deliv["match"] = string(b) == string(stream(st.id1, outSp.Offset+1, outSp.Offset+int64(len(b)), st.S))
+						}
+					}
+				}
+				cli.Close()
 			}
-			cli.Close()
+			if _, ok := deliv["want"]; !ok {
+				deliv["want"] = 0
+			}
+			ev["deliv"] = deliv
+			ev["decision"] = map[string]interface{}{"full": isFull, "locOff": locSp.Offset, "outOff": outSp.Offset, "setRunId": len(fo.setIds)}
+			tr.Emit(ev)
+			kinds[fmt.Sprint(deliv["kind"])]++
+			if len(samples) < 3 {
+				samples = append(samples, ev)
+			}
+			stepOK = merr == nil && deliv["kind"] != "error"
 		}
-		if _, ok := deliv["want"]; !ok {
-			deliv["want"] = 0
-		}
-		ev["deliv"] = deliv
-		ev["decision"] = map[string]interface{}{"full": isFull, "locOff": locSp.Offset, "outOff": outSp.Offset, "setRunId": len(fo.setIds)}
-		tr.Emit(ev)
-		kinds[fmt.Sprint(deliv["kind"])]++
-		if len(samples) < 3 {
-			samples = append(samples, ev)
+		step(id, 1, map[string]interface{}{"label": cs.label, "rdb": cs.rdb, "l": cs.l, "r": cs.r})
+		if stepOK && r.Chance(60) {
+			// the replay went on for a while; the connection is lost; the same process connects again
+			cl, cr := ch.GetOffsetRange(ch.RunId())
+			if liveW != nil {
+				liveW.Close()
+				liveW = nil
+			}
+			if cr > lastOutSp.Offset && cr > cl {
+				lo := lastOutSp.Offset
+				if cl > lo {
+					lo = cl
+				}
+				fo.id, fo.off = st.id1, lo+int64(r.Intn(int(cr-lo)+1))
+				step(id+500000, 2, map[string]interface{}{"label": st.id1, "rdb": false, "l": cl, "r": cr})
+				nScen++
+			}
 		}
 		cancel()
 		ch.Close()
